@@ -25,14 +25,17 @@ pub struct Cfg {
     pub max_memory: Option<usize>,
     pub uring: bool,
     pub workers: usize,
+    /// All alphabet keys on ONE version-clock shard (fixed hasher seeds, keys chosen to collide)
+    /// instead of pairwise distinct ones.
+    pub same_shard: bool,
 }
 
 impl Cfg {
     pub fn memory() -> Cfg {
-        Cfg { persistent: false, cache: false, ttl: false, format: 3, data_blocks: 0, max_memory: None, uring: false, workers: 1 }
+        Cfg { persistent: false, cache: false, ttl: false, format: 3, data_blocks: 0, max_memory: None, uring: false, workers: 1, same_shard: false }
     }
     pub fn persistent(data_blocks: u64) -> Cfg {
-        Cfg { persistent: true, cache: true, ttl: false, format: 3, data_blocks, max_memory: None, uring: false, workers: 1 }
+        Cfg { persistent: true, cache: true, ttl: false, format: 3, data_blocks, max_memory: None, uring: false, workers: 1, same_shard: false }
     }
     pub fn name(&self) -> String {
         format!(
@@ -46,7 +49,7 @@ impl Cfg {
             },
             if self.uring { "+uring" } else { "" },
             if self.workers != 1 { format!("+w{}", self.workers) } else { String::new() },
-        )
+        ) + if self.same_shard { "+oneshard" } else { "" }
     }
     pub fn total_blocks(&self) -> u64 {
         16 + self.data_blocks
@@ -230,6 +233,7 @@ impl Sut {
         sess.clock.store(T0, Ordering::SeqCst);
         sess.set_flag(F_NO_URING, !cfg.uring);
         sess.set_flag(F_FORCE_SYNC, !cfg.uring);
+        sess.set_flag(crate::session::F_FIXED_HASHER, cfg.same_shard);
         let base = if !cfg.persistent {
             Vec::new()
         } else if cfg.format < 3 {
